@@ -27,7 +27,9 @@ Transcript(e1, e2, B, X, Y, id) == <<e1, e2, B, B, X, Y, "ntor-curve25519-sha256
 
 VARIABLES cfg, out, done
 vars == <<cfg, out, done>>
-Configs == [b_srv : Idents, b_cli : Idents, n_srv : Nodes, n_cli : Nodes,
+\* the identity key the CLIENT was configured with may be a degenerate (low-order) public key: a forged bridge line
+IdentsSeen == Idents \cup {"low"}
+Configs == [b_srv : Idents, b_cli : IdentsSeen, n_srv : Nodes, n_cli : Nodes,
             x : CliEph, y : SrvEph, X_seen : SeenX, Y_seen : SeenY]
 
 Server(c) == LET e1 == DH(c.y, c.X_seen)  e2 == DH(c.b_srv, c.X_seen)
@@ -48,7 +50,7 @@ Honest(c) == c.b_srv = c.b_cli /\ c.n_srv = c.n_cli /\ c.X_seen = c.x /\ c.Y_see
 Agree == done => ((out.s.seed = out.c.seed) = Honest(cfg) /\ (out.s.auth = out.c.auth) = Honest(cfg))
 \* a zero Diffie-Hellman result is refused by the side that computes it
 ZeroRefused == done => (/\ (cfg.X_seen = "low") = ~out.s.ok
-                                /\ (cfg.Y_seen = "low") = ~out.c.ok)
+                                /\ (cfg.Y_seen = "low" \/ cfg.b_cli = "low") = ~out.c.ok)
 \* KEY_SEED and AUTH never coincide (different labels)
 Separated == done => out.s.seed # out.s.auth /\ out.c.seed # out.c.auth
 EmitConfig == done => PrintT(<<"CFG", 1, ToJson([cfg |-> cfg, agree |-> out.s.seed = out.c.seed,
